@@ -103,6 +103,7 @@ class C18(Prop):
             # what a trusted input may do to the session that the inputs after it inherit - and blank inputs, which still
             # count as inputs (each is a render call with its own options)
             return rng.choice([".safeMode = '1'", ".safeMode = '3'\n<b>t</b>", ".htmlReplacement = 'TR'\n.safeMode = '2'", '', '  \n', '\n',
+                               ".safeMode = '2'\n<b>t</b> text", ".safeMode = '2'", "<br> trusted html",
                                "{tm} = '<i>tm</i>'", ".safeMode = '5'\n\npara"])
         if k < 0.5:
             return clean(gen.document(rng, 1, rng.randint(1, 2)))
@@ -128,6 +129,9 @@ class C18(Prop):
                         argv += [rng.choice(['--prepend', '-p']), self.content(rng, True).replace('\n', ' ') if rng.random() < 0.3 else self.content(rng, True)]
                 if rng.random() < 0.4:
                     argv += ['--safe-mode', rng.choice(['0', '1', '2', '9'])]
+                if rng.random() < 0.4:
+                    # the replacement text given on the command line is in force for every input, trusted ones too
+                    argv += [rng.choice(['--html-replacement', '--htmlReplacement']), rng.choice(['X', '[gone]', ''])]
                 names = rng.choice([['doc.rmu'], ['-'], [], ['doc.rmu', 'b.rmu']])
                 for n in names:
                     if n != '-':
